@@ -160,6 +160,25 @@ class World:
             self.mem_id = mem_id
             self.dev.add_memory(mem_id, self.base, img)
             self.mem = Memory(self.cf)
+            if sym.B.get('fast'):
+                # the device answers so fast that the receiver thread dispatches the reply while the sender is still inside the
+                # driver's send_packet (a legal interleaving of the two threads)
+                plain_send = self.cf.link.send_packet
+
+                state = {'armed': True}
+
+                def send_and_answer(pk):
+                    plain_send(pk)
+                    # only the first request of the history, and only when handling its reply needs neither a lock that the
+                    # sender holds nor the send lock (a single-chunk read): otherwise the receiver thread simply waits for the
+                    # sender, which is the normal order
+                    first = [r for r in self.reqs if r.kind == 'read']
+                    if not state['armed'] or self.table.held() or not first or first[0].length > 20 or len(self.reqs) != 1:
+                        return
+                    state['armed'] = False
+                    self.sym.goal('answered-during-send')
+                    self.pump()
+                self.cf.link.send_packet = send_and_answer
             self.el = MemoryElement(id=mem_id, type=MemoryElement.TYPE_APP, size=W, mem_handler=self.mem)
         except BaseException:
             self.undo()
@@ -704,6 +723,8 @@ HARNESSES = [
             goals=('continued', 'completed', 'completed-after-several')),
     Harness('read_data', h_read_data, quick=dict(maxlen=63), thorough=dict(maxlen=100), timeout=(300, 900),
             goals=('empty-read', 'three-chunks', 'follow-up-served')),
+    Harness('read_data[fast answers]', h_read_data, quick=dict(maxlen=25, fast=True), thorough=dict(maxlen=45, fast=True), timeout=(300, 900),
+            goals=('answered-during-send',), note='replies dispatched while the sender is still inside send_packet'),
     Harness('write_data', h_write_data, quick=dict(maxlen=52), thorough=dict(maxlen=77), timeout=(400, 1500),
             goals=('empty-write', 'three-chunks', 'progress-callback', 'follow-up-served')),
     Harness('read_faults', h_read_faults, quick=dict(lengths=[0, 1, 20, 21, 40], max_requests=4, **_F),
